@@ -2167,7 +2167,16 @@ func (t *tr) recordEffect(name string, idx []int, call *ast.CallExpr, en env) st
 
 // ------------------------------------------------------------------ units
 
-func (t *tr) translate(fd funcDecl) string {
+func (t *tr) translate(fd funcDecl) (out string) {
+	// a construct the translator did not anticipate must not take the whole extraction down:
+	// the unit becomes untranslatable and the ties that mention it stop checking
+	defer func() {
+		if r := recover(); r != nil {
+			t.fail = fmt.Sprintf("translator panic: %v", r)
+			out = fmt.Sprintf("/-- %s%s — NOT TRANSLATABLE: %s -/\ndef %s : Untranslated := ⟨%s⟩\n", recvPrefix(t.u), t.u.Func,
+				strings.ReplaceAll(t.fail, "-/", "- /"), t.u.Name, leanStr(t.fail))
+		}
+	}()
 	fn := fd.decl
 	en := env{m: map[string]evar{}}
 	t.used = map[string]bool{}
